@@ -356,7 +356,7 @@ inductive TypeS : CT → In → Prop
 
 def ctNE : CT → Bool
   | .obj _ fs _ => fieldsNE fs
-  | .enm _ _ _ => true
+  | .enm _ vs _ => !vs.isEmpty
 
 theorem typeDef_split (i : In) (t : CT) (r : In) (h : typeDef i = .ok t r) (hne : ctNE t = true) :
     ∃ s, i = s ++ r ∧ TypeS t s := by
